@@ -251,6 +251,55 @@ theorem record_fields (q : Req) (e : Env) :
   · exact ⟨recordImage_filename .., recordImage_owner .., recordImage_date ..⟩
   · exact ⟨recordImage_filename .., recordImage_owner .., recordImage_date ..⟩
 
+/-- the reward (entropy of the stored lines, capped, zero on boards without credit) — or, on an anonymous board,
+the real author's uid — is recorded little-endian in the `Multi` field of the new index entry. -/
+theorem multi_recorded (q : Req) (e : Env) :
+    C05.field (pRecord q e) Gen.RecFile.offMulti Gen.RecFile.lenMulti
+      = le32 (if useAnony q.anon then q.uid else pMoney q) := by
+  unfold pRecord postRecord storedMulti
+  cases useAnony q.anon
+  · exact recordImage_multi ..
+  · exact recordImage_multi ..
+
+/-- before e2eca4c neither was recorded: the setters wrote into a reallocated copy. -/
+theorem before_fix_multi_lost (v : Nat) : le32 (storedMultiOld v) = [0, 0, 0, 0] := by
+  simp [storedMultiOld, le32, C05.le32]
+
+/-- the reward never exceeds the entropy bound nor the configured maximum. -/
+theorem money_bounded (q : Req) : pMoney q ≤ ENTROPY_MAX ∨ pMoney q ≤ Gen.Post.MAX_POST_MONEY := by
+  unfold pMoney postMoney
+  simp only
+  split
+  · left; omega
+  · split
+    · right; omega
+    · left
+      have : ∀ (ls : List Bytes) (e0 : Nat), e0 ≤ ENTROPY_MAX →
+          ls.foldl (fun e l => addEntropy e (pLine l)) e0 ≤ ENTROPY_MAX := by
+        intro ls
+        induction ls with
+        | nil => intro e0 h; simpa using h
+        | cons l rest ih =>
+          intro e0 _
+          simp only [List.foldl_cons]
+          apply ih
+          unfold addEntropy
+          simp only
+          generalize (if e0 < ENTROPY_MAX then e0 + lineEntropy (pLine l) else e0) = e1
+          by_cases h : e1 > ENTROPY_MAX
+          · rw [if_pos h]; exact Nat.le_refl _
+          · rw [if_neg h]; exact Nat.le_of_not_gt h
+      apply this
+      unfold initEntropy; split <;> simp
+
+/-- a post whose article file cannot be written completely fails as a whole: boards (indexes, files, totals)
+and counters are exactly as before; only the .post log has its record. -/
+theorem write_failure_frame (s : St) (q : Req) (e : Env) :
+    ∃ s', postWriteFails s q e = .ok s' ∧ s'.boards = s.boards ∧ s'.users = s.users := by
+  unfold postWriteFails
+  rw [postTitle_eq]
+  exact ⟨_, rfl, rfl, rfl⟩
+
 /-! #### the id of the new entry fetches the new file -/
 
 /-- the names Stampfile produces: `M.<t>.A.<XXX>` with a 10-digit time. -/
